@@ -39,6 +39,9 @@ def mapInit {α : Type} (f : α → α) : List α → List α
   | [x] => [x]
   | x :: y :: t => f x :: mapInit f (y :: t)
 
+/-- a text file in the sense of the property: no NUL byte (`readLine` measures each chunk with `strlen`) -/
+def NulFree (t : Bytes) : Prop := ∀ b ∈ t, b ≠ 0
+
 /-- the lines of a text: split at LF, one CR removed before each LF -/
 def lines (t : Bytes) : List Bytes := mapInit stripCR (splitLF t)
 
@@ -99,12 +102,12 @@ theorem linesRef_spec (racc rest : Bytes) :
       | nil => exact absurd hs (splitLF_ne_nil t)
       | cons h r => simp [prependHead, Spec.consHead]
 
-/-- **lines_spec**: for every content and every `fgets` chunk size ≥ 2 (255 in the source), `lines()` is exactly
+/-- **lines_spec**: for every NUL-free content and every `fgets` chunk size ≥ 2 (255 in the source), `lines()` is exactly
     the sequence obtained by splitting at LF and removing one CR before each LF — any line length, with
     or without a final newline, the empty file included. -/
-theorem lines_spec (chunk : Nat) (_h : 2 ≤ chunk) (content : Bytes) :
+theorem lines_spec (chunk : Nat) (_h : 2 ≤ chunk) (content : Bytes) (hz : Spec.NulFree content) :
     lines chunk content = Spec.lines content := by
-  rw [lines_eq, linesRef_spec]
+  rw [lines_eq _ _ hz, linesRef_spec]
   unfold Spec.lines
   cases hs : Spec.splitLF content with
   | nil => exact absurd hs (splitLF_ne_nil content)
@@ -121,28 +124,31 @@ theorem open_modes (t : Bool) :
 
 /-- the chunk of the current source satisfies the hypothesis of `lines_spec`, and `TextFile(path).lines()`
     of an existing file is the specification of its content -/
-theorem lines_of_file (d : Disk) (p : Nat) (c : Bytes) (h : d p = some c) : linesOf d p = Spec.lines c := by
+theorem lines_of_file (d : Disk) (p : Nat) (c : Bytes) (h : d p = some c) (hz : Spec.NulFree c) :
+    linesOf d p = Spec.lines c := by
   unfold linesOf
   rw [openH_read d p true c h]
-  have := lines_spec readLineChunk (by decide) c
+  have := lines_spec readLineChunk (by decide) c hz
   unfold lines at this
   exact this
 
 /-- **readLine_seq** (a line that ends in LF): the call returns `true`, leaves the line without its LF and
     without one CR before it, and the stream just behind the LF -/
-theorem readLine_lf (chunk : Nat) (_h : 2 ≤ chunk) (pre post : Bytes) (e : Bool) (hpre : ∀ b ∈ pre, b ≠ 10) :
+theorem readLine_lf (chunk : Nat) (_h : 2 ≤ chunk) (pre post : Bytes) (e : Bool) (hpre : ∀ b ∈ pre, b ≠ 10)
+    (hz : Spec.NulFree (pre ++ 10 :: post)) :
     readLine chunk ⟨pre ++ 10 :: post, e⟩ = ((Spec.stripCR pre, true), ⟨post, e⟩) := by
   unfold readLine
-  rw [readLineLoop_eq, rlSpec_lf _ _ _ _ hpre]
+  rw [readLineLoop_eq _ _ ⟨pre ++ 10 :: post, e⟩ hz, rlSpec_lf _ _ _ _ hpre]
   simp only [List.append_nil]
   rw [← stripCR_reverse, List.reverse_reverse]
 
 /-- **readLine_seq** (the bytes after the last LF): the call returns `false`, leaves those bytes in the
     string, and the end-of-file indicator is set — so `while (!end())` loops stop after it -/
-theorem readLine_last (chunk : Nat) (_h : 2 ≤ chunk) (rest : Bytes) (e : Bool) (hrest : ∀ b ∈ rest, b ≠ 10) :
+theorem readLine_last (chunk : Nat) (_h : 2 ≤ chunk) (rest : Bytes) (e : Bool) (hrest : ∀ b ∈ rest, b ≠ 10)
+    (hz : Spec.NulFree rest) :
     readLine chunk ⟨rest, e⟩ = ((rest, false), ⟨[], true⟩) := by
   unfold readLine
-  rw [readLineLoop_eq, rlSpec_nolf _ _ _ hrest]
+  rw [readLineLoop_eq _ _ ⟨rest, e⟩ hz, rlSpec_nolf _ _ _ hrest]
   simp
 
 /-- **readLine_delim**: `readLine(char newline)` returns the bytes before the next delimiter and leaves the
@@ -177,10 +183,10 @@ theorem readLine_delim (delim : UInt8) (pre post rest : Bytes) (hpre : ∀ b ∈
 
 -- hypotheses are satisfiable / the statements are not vacuous: a 3-byte chunk on "ab\r\ncd"
 example : readLine 3 ⟨[97, 98, 13, 10, 99, 100], false⟩ = (([97, 98], true), ⟨[99, 100], false⟩) := by
-  have := readLine_lf 3 (by decide) [97, 98, 13] [99, 100] false (by decide)
+  have := readLine_lf 3 (by decide) [97, 98, 13] [99, 100] false (by decide) (by unfold Spec.NulFree; decide)
   simpa [Spec.stripCR] using this
 example : lines 2 [97, 98, 13, 10, 99, 100] = [[97, 98], [99, 100]] := by
-  rw [lines_spec 2 (by decide)]; decide
+  rw [lines_spec 2 (by decide) _ (by unfold Spec.NulFree; decide)]; decide
 
 /-! ## Directory::copy block loop -/
 
@@ -543,7 +549,7 @@ theorem store_refines (hist : List Spec.Tx) (d : Disk) (p : Nat) :
     functions of its byte string alone: all of it, its length, its first `n` bytes -/
 theorem read_back (d : Disk) (p : Nat) (c : Bytes) (h : d p = some c) :
     content d p = c ∧ size d p = c.length ∧ (∀ n, firstBytes d p n = c.take n) ∧
-    linesOf d p = Spec.lines c ∧ textOf d p = text c := by
+    (Spec.NulFree c → linesOf d p = Spec.lines c) ∧ textOf d p = text c := by
   have hf : ∀ n, firstBytes d p n = c.take n := by
     intro n
     simp [firstBytes, openH_read d p false c h, hread, smRead, fread]
